@@ -113,6 +113,25 @@ ROUND_TEXT = {
          "(unit='deg' with order='xyz', flip with deg, check=False with a list form, shortest with a vector s, samebody with a "
          "translation) ; (5) the SECOND of two results returned together (a tuple's second item, the lam of a (p, lam) pair, the "
          "theta of (twist, theta), the axis of (angle, axis)) being wrong while the first is right."),
+    12: ("This is a TWELFTH round.  Assume that a very strong randomised differential checker of this property already exists.  It "
+         "draws every kind of argument the statement names: all classes, call forms, container forms (list, tuple, 1-D, row, column, "
+         "frozen / strided / Fortran arrays), element types (int8 .. int64, unsigned, float16 / 32 / 64, bool, object), options and "
+         "pairs of options, both units with exact whole degrees, special angles with offsets drawn continuously between 1e-12 and "
+         "1e-1 on either side, axis-aligned / nearly-unit / tiny axes, zero, negative-zero and 1e-20 translations, nearly equal "
+         "operands.  Objects hold 0, 1..5, 8, 9, 16, 17, 32, 33, 64, 65 or 100 values of mixed kinds (identity, pure translation, "
+         "exact half turn, prismatic ...) with repeated values among them; vectors of s / theta / points have up to 1000 elements, "
+         "sorted, constant, evenly and nearly evenly spaced.  Every result is compared with an independent high-precision "
+         "reference; operands, receivers and all earlier results are re-examined bit for bit after every step, including after "
+         "later list mutations of any object involved; every accessor is evaluated again after the object was changed in place and "
+         "compared with a fresh object of the same values; every call is made twice, also in a second interpreter started with -O.  "
+         "Find what such a checker STILL cannot see, and say in your README why.  Directions that may help: behaviour that depends on "
+         "the IDENTITY or exact Python TYPE of something the checker treats as a value (a Python int or bool where it passes a float, "
+         "an int exponent given as np.int8, a range object where a list of ints is documented); ENVIRONMENT the user may legitimately "
+         "have set (the warnings filter set to 'error', np.seterr(all='raise'), numpy print options) under which a correct call "
+         "must still return the same value; PICKLING / copy.deepcopy of results and "
+         "continuing to compute with the copies; VERY LONG chains of one cheap operation (10 000 appends, 10 000 in-place products) "
+         "where something grows or drifts; results whose dtype, memory order or writability differs from the usual one so that a "
+         "later NumPy call by the USER (np.linalg.inv, np.sum(axis=...), in-place +=) goes wrong."),
 }
 
 HUNT_TEXT = '''ALSO, BEFORE the mutants (about a third of your effort): hunt for inputs for which the UNMODIFIED tree already violates the property.  Read the statement and the quantifier literally and probe its corners systematically with small scripts: every class and call form it names, the extremes of the stated ranges, exact special values, multi-valued objects, every option value, both units, documented aliases, sequences of operations on one object.  Write what you find to {wt}/bughunt.md: for each violation a two-line reproduction, the value obtained and the value the property requires; if you find none, list briefly what you covered.  Do not fix anything.
